@@ -112,7 +112,7 @@ def ks_clone(ctx, args, st):
     return ret(st, str_of(st, args[0]).retag('String' if op == 'to_string' else ks_type(ctx.callee)))
 
 
-@model(r'^<(?:String|str|&str|&String|Box<str>|Cow<\'_, str>) as (?:Clone|ToString|ToOwned|Into<String>|From<&str>|From<String>|Into<Box<str>>)>::(clone|to_string|to_owned|into|from)$|^(?:std::string::|alloc::string::)?String::from_str$|^str::<impl str>::(to_owned|to_string)$|^(?:alloc|std)::str::<impl str>::(to_owned|to_string|into_string|into_boxed_str)$')
+@model(r'^<(?:String|str|&str|&String|Box<str>|Cow<\'_, str>) as (?:Clone|ToString|ToOwned|Into<String>|From<&str>|From<String>|Into<Box<str>>)>::(clone|to_string|to_owned|into|from)$|^(?:std::string::|alloc::string::)?String::from_str$|^str::<impl str>::(to_owned|to_string)$|^(?:alloc|std)::str::<impl str>::(to_owned|to_string|into_string|into_boxed_str)$|^(?:std::borrow::)?Cow::<.*str>::into_owned$')
 def string_copy(ctx, args, st):
     return ret(st, str_of(st, args[0]).retag('String'))
 
@@ -214,7 +214,18 @@ def str_as_bytes(ctx, args, st):
     c = s.concrete()
     if c is not None:
         return ret(st, st.ref(VecV([Int(b, 'u8') for b in c.encode('utf-8')], 'slice')))
-    return ret(st, st.ref(Opaque(('bytes-of', repr(s)))))
+    if s.facts is not None:
+        return ret(st, st.ref(Opaque(('bytes-of', repr(s)))))
+    from .pctenc import utf8_bytes
+    def g():
+        for s2, lens in fix_lengths(ctx.ex, st, s):
+            bs = []
+            for c, n in zip(s.chars, lens):
+                for b in utf8_bytes(c, n):
+                    b = z3.simplify(z3.Extract(7, 0, b) if not isinstance(b, int) else z3.BitVecVal(b, 8))
+                    bs.append(Int(b, 'u8'))
+            yield s2, 'ret', s2.ref(VecV(bs, 'slice'))
+    return g()
 
 
 def _first_is(ex, st, s, cval):
@@ -318,7 +329,11 @@ def upper_expr(c):
         if c < 128: return ord(chr(c).upper())
         u = chr(c).upper()
         return ord(u) if len(u) == 1 else UPPER(z3.BitVecVal(c, 32))
-    return z3.If(z3.And(z3.UGE(c, 97), z3.ULE(c, 122)), c - 32, z3.If(z3.ULT(c, 128), c, UPPER(c)))
+    # exact on ASCII and Latin-1 (U+00E0..U+00FE except the division sign map 32 down, U+00FF -> U+0178, U+00B5 -> U+039C; U+00DF expands to
+    # two characters and stays uninterpreted); an uninterpreted per-character function above U+00FF
+    lat = z3.And(z3.UGE(c, 0xE0), z3.ULE(c, 0xFE), c != 0xF7)
+    return z3.If(z3.And(z3.UGE(c, 97), z3.ULE(c, 122)), c - 32, z3.If(z3.ULT(c, 128), c,
+           z3.If(lat, c - 32, z3.If(c == 0xFF, z3.BitVecVal(0x178, 32), z3.If(c == 0xB5, z3.BitVecVal(0x39C, 32), z3.If(z3.And(z3.ULT(c, 0x100), c != 0xDF), c, UPPER(c)))))))
 
 
 def lower_expr(c):
@@ -326,7 +341,8 @@ def lower_expr(c):
         if c < 128: return ord(chr(c).lower())
         u = chr(c).lower()
         return ord(u) if len(u) == 1 else LOWER(z3.BitVecVal(c, 32))
-    return z3.If(z3.And(z3.UGE(c, 65), z3.ULE(c, 90)), c + 32, z3.If(z3.ULT(c, 128), c, LOWER(c)))
+    lat = z3.And(z3.UGE(c, 0xC0), z3.ULE(c, 0xDE), c != 0xD7)
+    return z3.If(z3.And(z3.UGE(c, 65), z3.ULE(c, 90)), c + 32, z3.If(z3.ULT(c, 128), c, z3.If(lat, c + 32, z3.If(z3.ULT(c, 0x100), c, LOWER(c)))))
 
 
 def _fork_pred(ex, st, p):
@@ -367,6 +383,11 @@ def str_case(ctx, args, st):
     if s.facts is not None: raise Unsupported('case mapping of an abstract string')
     up = 'upper' in ctx.callee
     f = upper_expr if up else lower_expr
+    if '_ascii_' in ctx.callee:
+        g_ = f
+        def f(c):      # ASCII-only mapping: everything from U+0080 up is unchanged
+            if isinstance(c, int): return g_(c) if c < 128 else c
+            return z3.If(z3.ULT(c, 128), g_(c), c)
     out = []
     for c in s.chars:
         x = f(c)
@@ -551,4 +572,86 @@ def str_split_whitespace(ctx, args, st):
     def g():
         for s2, pieces in go(st, 0, [], []):
             yield s2, 'ret', mk_list_iter([s2.ref(StrV(p, 'str')) for p in pieces])
+    return g()
+
+
+# ------------------------------------------------------------------ byte-offset views of a string (char_indices, &s[a..b])
+def fix_lengths(ex, st, s):
+    """generator (st, [utf-8 length of each char as python int]): forks every symbolic char into its 1/2/3/4-byte class, so
+    that byte offsets are path-concrete and an offset inside a multi-byte char is seen as such"""
+    def go(s_, i, acc):
+        if i == len(s.chars):
+            yield s_, acc; return
+        c = s.chars[i]
+        if isinstance(c, int):
+            yield from go(s_, i + 1, acc + [utf8_len_expr(c)]); return
+        known = s_.env.get(('u8len', c.get_id()))
+        if known is not None:
+            yield from go(s_, i + 1, acc + [known]); return
+        def cls(s1, bounds, n):
+            if not bounds:
+                yield s1, n; return
+            for s2, yes in ex.fork_bool(s1, z3.ULT(c, bounds[0])):
+                if yes: yield s2, n
+                else: yield from cls(s2, bounds[1:], n + 1)
+        for s2, n in cls(s_, [0x80, 0x800, 0x10000], 1):
+            s2.env[('u8len', c.get_id())] = n
+            yield from go(s2, i + 1, acc + [n])
+    yield from go(st, 0, [])
+
+
+@model(r'^(?:core::)?str::<impl str>::char_indices$')
+def str_char_indices(ctx, args, st):
+    from .iters import mk_list_iter
+    s = str_of(st, args[0])
+    def g():
+        for s2, lens in fix_lengths(ctx.ex, st, s):
+            off = 0; items = []
+            for c, l in zip(s.chars, lens):
+                items.append(Tup([Int(off, 'usize'), Char(c)])); off += l
+            yield s2, 'ret', mk_list_iter(items)
+    return g()
+
+
+def _concrete_usize(ex, st, iv, hi):
+    c = iv.concrete()
+    if c is not None:
+        yield st, c; return
+    for s2, k in ex.concretize(st, iv, 0, hi):
+        yield s2, k
+
+
+@model(r'^<str as Index<(?:std::ops::)?(Range|RangeFrom|RangeTo|RangeFull)(?:<usize>)?>>::index$|^(?:core::)?str::traits::<impl Index<.*> for str>::index$|^<String as Index<(?:std::ops::)?(Range|RangeFrom|RangeTo|RangeFull)(?:<usize>)?>>::index$')
+def str_index_range(ctx, args, st):
+    s = str_of(st, args[0]); rng = args[1]
+    if s.facts is not None: raise Unsupported('byte slicing of an abstract string')
+    if not isinstance(rng, Adt): raise Unsupported(f'str index {rng!r}')
+    def g():
+        for s1, lens in fix_lengths(ctx.ex, st, s):
+            total = sum(lens)
+            bounds = {0: 0}; off = 0
+            for i, l in enumerate(lens):
+                off += l; bounds[off] = i + 1
+            lo_v = rng.items[0] if rng.ty in ('Range', 'RangeFrom') else Int(0, 'usize')
+            hi_v = rng.items[1] if rng.ty == 'Range' else rng.items[0] if rng.ty == 'RangeTo' else Int(total, 'usize')
+            for s2, lo in _concrete_usize(ctx.ex, s1, lo_v, total + 4):
+                for s3, hi in _concrete_usize(ctx.ex, s2, hi_v, total + 4):
+                    if lo is None or hi is None or lo > hi or hi > total:
+                        yield s3, 'panic', f'byte range {lo}..{hi} out of bounds of a string of {total} bytes'; continue
+                    if lo not in bounds or hi not in bounds:
+                        yield s3, 'panic', f'byte index {lo if lo not in bounds else hi} is not a char boundary'; continue
+                    yield s3, 'ret', s3.ref(StrV(s.chars[bounds[lo]:bounds[hi]], 'str'))
+    return g()
+
+
+@model(r'^(?:core::)?str::<impl str>::(starts_with|ends_with)::<&&?str>$|^(?:core::)?str::<impl str>::(starts_with|ends_with)::<&String>$')
+def str_starts_with_str(ctx, args, st):
+    s, p = str_of(st, args[0]), str_of(st, args[1])
+    if s.facts is not None or p.facts is not None: raise Unsupported('starts_with on abstract strings')
+    at = 0 if 'starts_with' in ctx.callee else len(s.chars) - len(p.chars)
+    def g():
+        if at < 0:
+            yield st, 'ret', Bool(False); return
+        for s2, hit in _match_at(ctx.ex, st, s.chars, at, p.chars):
+            yield s2, 'ret', Bool(hit)
     return g()
